@@ -27,7 +27,7 @@ GRID = [k / 4.0 for k in range(-12, 13)]
 
 
 def bounds(tier):
-    return {'n_max': NMAX[tier], 'grid': 'k/4, |k|<=12', 'call_forms': ['float', '0-d', '1-d', 'out=', 'one array asked for orders 0..n in turn'], 'argument_preserved': True}
+    return {'n_max': NMAX[tier], 'grid': 'k/4, |k|<=12', 'call_forms': ['float', '0-d', '1-d', 'out=', 'out=x (in place)', 'one array asked for orders 0..n in turn'], 'argument_preserved': True}
 
 
 def specs():
@@ -165,6 +165,13 @@ def run_unit(u):
         preserved('out=', a2)
     except Exception as e:
         fail('out= raises', None, str(e)[:150], None)
+    try:
+        # the caller asks for the result to be written over the argument itself
+        a4 = arr.copy()
+        r = f(*(extras + (a4,)), out=a4, n=n)
+        forms['out=x (in place)'] = np.asarray(a4 if r is None or r is a4 else r, dtype=float)
+    except Exception as e:
+        fail('out=x raises', None, str(e)[:150], None)
     try:
         # one array object asked for every order 0..n in turn, then order n again
         a3 = arr.copy()
